@@ -17,11 +17,13 @@ const (
 	Transient Outcome = 2 // *plugins.Error, not permanent
 	Permanent Outcome = 3 // *plugins.Error, permanent
 	WrongType Outcome = 4 // a response whose type differs from the plugin's declared response type
-	Overrun   Outcome = 5 // blocks until the invocation's context is done (the action's timeout)
+	Overrun   Outcome = 5 // blocks until the invocation's context is done (the action's timeout), then answers late
+	// WrongTypeErr: a response whose type differs from the declared one TOGETHER with a transient error.
+	WrongTypeErr Outcome = 6
 )
 
 func (o Outcome) String() string {
-	return [...]string{"ok", "ok-nil", "transient", "permanent", "wrong-type", "overrun"}[o]
+	return [...]string{"ok", "ok-nil", "transient", "permanent", "wrong-type", "overrun", "wrong-type+error"}[o]
 }
 
 // EngineSuccess reports whether the engine must treat the invocation as a successful attempt.
@@ -222,7 +224,7 @@ func (a *ActionSpec) FinalOutcome(from int) (invocations int, success bool) {
 		switch st.Out {
 		case OK, OKNil:
 			return invocations, true
-		case Permanent, WrongType:
+		case Permanent, WrongType, WrongTypeErr:
 			return invocations, false
 		}
 	}
